@@ -357,8 +357,10 @@ def run_rdm2(case):
             ep, _ = wrapper(1.0, jnp.array(eri_of(eps)), pd)
             em, _ = wrapper(1.0, jnp.array(eri_of(-eps)), pd)
             fds[eps] = (float(ep) - float(em)) / (2 * eps)
+        # central differences carry an O(eps^2) truncation error: also accept the Richardson extrapolation of the two steps
+        fds["richardson"] = (100.0 * fds[1e-4] - fds[1e-3]) / 99.0
         best = min(abs(v - ana) for v in fds.values())
-        events.append(judge("2rdm/vjp-equals-directional-finite-difference", best / max(1.0, abs(ana)), 5e-6, key + "/vjp-vs-fd", vjp=ana, fd=fds))
+        events.append(judge("2rdm/vjp-equals-directional-finite-difference", best / max(1.0, abs(ana)), 5e-6, key + "/vjp-vs-fd", vjp=ana, fd={str(k): v for k, v in fds.items()}))
         nontriv = abs(ana) > 1e-6
     return {"events": events, "nontrivial": nontriv, "sample": {"wt": wt, "energy": float(e_v), "plain": float(e_plain)},
             "counters": {"vjp_calls": 1, "jvp_calls": 0, "one_body_limit": 0}}
